@@ -25,7 +25,7 @@ Reg(k)  == 1000 + k
 TInit ==
     /\ t \in 1..Len(Traces)
     /\ l = 1
-    /\ InitWith(Traces[t].cfg)
+    /\ IF Traces[t].resumed_from >= 0 THEN DeadAfterCheckpoint(Traces[t].cfg, Traces[t].resumed_from) ELSE InitWith(Traces[t].cfg)
     /\ TLCSet(Reg(t), [l |-> 0, pc |-> "-", i |-> -1, bad |-> "-"])
 
 \* ---- logged events ------------------------------------------------------
